@@ -56,13 +56,20 @@ def gen_scenario(seed: int, light: bool = False) -> Dict[str, Any]:
     kind = rs.weighted([("mesh", 0.65), ("sketch", 0.35)])
     sc: Dict[str, Any] = {"kind": kind, "seed": seed}
     jit = rs.pick([0.05, 0.12, 0.2])
+    # geo-referenced models: coordinates of millions with features of decimetres
+    offset, spacing = [0.0, 0.0, 0.0], [1.0, 1.0, 1.0]
+    if not light and rs.chance(0.1):
+        offset = [round(rs.uniform(2e5, 8e5), 0), round(rs.uniform(3e6, 6e6), 0), round(rs.uniform(0, 500), 0)]
+        spacing[rs.randrange(3)] = 0.3
+    sc["offset"], sc["spacing"] = offset, spacing
     if kind == "mesh":
         dims = rs.pick([(2, 2, 1), (2, 2, 1), (2, 1, 1), (2, 2, 2), (3, 2, 1)] if not light else [(2, 2, 1), (2, 1, 1)])
         nodes = {}
         for i in range(dims[0] + 1):
             for j in range(dims[1] + 1):
                 for k in range(dims[2] + 1):
-                    nodes[(i, j, k)] = [i + rs.uniform(-jit, jit), j + rs.uniform(-jit, jit), k + rs.uniform(-jit, jit)]
+                    nodes[(i, j, k)] = [offset[0] + spacing[0] * (i + rs.uniform(-jit, jit)), offset[1] + spacing[1] * (j + rs.uniform(-jit, jit)),
+                                        offset[2] + spacing[2] * (k + rs.uniform(-jit, jit))]
         cells = [(i, j, k) for i in range(dims[0]) for j in range(dims[1]) for k in range(dims[2])]
         sc["dims"] = dims
     else:
@@ -70,7 +77,7 @@ def gen_scenario(seed: int, light: bool = False) -> Dict[str, Any]:
         nodes = {}
         for i in range(dims[0] + 1):
             for j in range(dims[1] + 1):
-                nodes[(i, j, 0)] = [i + rs.uniform(-jit, jit), j + rs.uniform(-jit, jit), 0.0]
+                nodes[(i, j, 0)] = [offset[0] + spacing[0] * (i + rs.uniform(-jit, jit)), offset[1] + spacing[1] * (j + rs.uniform(-jit, jit)), 0.0]
         cells = [(i, j, 0) for i in range(dims[0]) for j in range(dims[1])]
         sc["dims"] = dims
     keys = sorted(nodes)
@@ -112,7 +119,9 @@ def gen_scenario(seed: int, light: bool = False) -> Dict[str, Any]:
                 # the line starts at the vertex itself, and the clamp is built from the vertex's own
                 # position array (as the library's examples do); usually it is aimed at the place the
                 # vertex was jittered away from and stops short of it, so that the upper bound is active
-                ideal = np.array([float(x) for x in nme.split("_")])
+                ideal = np.array([offset[q] + spacing[q] * float(x) for q, x in enumerate(nme.split("_"))])
+                if kind == "sketch":
+                    ideal[2] = 0.0
                 gap = float(np.linalg.norm(ideal - p))
                 if gap > 0.02 and rs.chance(0.7):
                     d = (ideal - p) / gap
@@ -208,7 +217,7 @@ def gen_scenario(seed: int, light: bool = False) -> Dict[str, Any]:
     if kind == "mesh" and not light and rs.chance(0.22) and len(names) > 2:
         nme = rs.pick(names)
         p = np.array(sc["nodes"][nme])
-        ideal = np.array([float(x) for x in nme.split("_")])
+        ideal = np.array([offset[q] + spacing[q] * float(x) for q, x in enumerate(nme.split("_"))])
         gap = ideal - p
         if float(np.linalg.norm(gap)) > 0.03:
             u = gap / np.linalg.norm(gap)
